@@ -14,6 +14,6 @@ r2 = {k:v for k,v in res.items() if k not in ('obligations','functions')}
 for v in r2.get('violations',[]): 
     if 'replay' in v: v['replay'].pop('request',None); v['replay'].pop('native_post',None)
 print(json.dumps(r2, indent=1, default=repr)[:6000])
-for o in res['obligations']: print(o['name'], o['status'], o['time_s'])
+for o in res["obligations"]: print(o["name"], o["status"], o["time_s"], o.get("stage",""))
 if native and '--tv' in sys.argv:
     t=time.time(); print(json.dumps(validate.validate_case(case, m, sc, native, 4, 0), indent=1, default=repr)[:3000]); print('tv', round(time.time()-t,2))
